@@ -458,11 +458,26 @@ fn history_of(dim: &str, sp: &Spec) -> Option<Vec<Act>> {
     // removal order: the insertion order rotated by a third
     let rot: Vec<usize> = if idx.is_empty() { vec![] } else { (0..idx.len()).map(|k| idx[(k + idx.len() / 3) % idx.len()]).collect() };
     Some(match dim {
-        // whole-list calls (the list may contain a repeat)
-        "variants" => vec![Act::SetVariants(list), Act::ClearVariants],
-        "tlang_variants" => vec![Act::SetTlang(leak(format!("de{}{}", if list.is_empty() { "" } else { "-" }, list.join("-")))), Act::ClearTlang],
-        "keyword_values" => vec![Act::SetKeyword("ca", list.clone()), Act::SetKeyword("nu", list), Act::RemoveKeyword("ca")],
-        "tfield_values" => vec![Act::SetTfield("h0", list.clone()), Act::SetTfield("k1", list), Act::RemoveTfield("h0")],
+        // whole-list calls (the list may contain a repeat): on an empty receiver, and again on a
+        // receiver that already holds exactly as many DISTINCT elements as the new list is long (an
+        // in-place path that re-uses the existing storage when the lengths agree)
+        "variants" => {
+            let same: Vec<S> = (0..list.len()).map(|i| al[i.min(al.len() - 1)]).collect();
+            vec![Act::SetVariants(list.clone()), Act::ClearVariants, Act::SetVariants(same), Act::SetVariants(list), Act::ClearVariants]
+        }
+        "tlang_variants" => {
+            let tl = |l: &[S]| -> S { leak(format!("de{}{}", if l.is_empty() { "" } else { "-" }, l.join("-"))) };
+            let same: Vec<S> = (0..list.len()).map(|i| al[i.min(al.len() - 1)]).collect();
+            vec![Act::SetTlang(tl(&list)), Act::ClearTlang, Act::SetTlang(tl(&same)), Act::SetTlang(tl(&list)), Act::ClearTlang]
+        }
+        "keyword_values" => {
+            let same: Vec<S> = (0..list.len()).map(|i| al[i.min(al.len() - 1)]).collect();
+            vec![Act::SetKeyword("ca", list.clone()), Act::SetKeyword("nu", list.clone()), Act::RemoveKeyword("ca"), Act::SetKeyword("nu", same), Act::SetKeyword("nu", list)]
+        }
+        "tfield_values" => {
+            let same: Vec<S> = (0..list.len()).map(|i| al[i.min(al.len() - 1)]).collect();
+            vec![Act::SetTfield("h0", list.clone()), Act::SetTfield("k1", list.clone()), Act::RemoveTfield("h0"), Act::SetTfield("k1", same), Act::SetTfield("k1", list)]
+        }
         // element by element: insert all, insert all again, remove all in another order
         "attributes" => {
             let mut h: Vec<Act> = list.iter().map(|x| Act::SetAttr(*x)).collect();
